@@ -120,10 +120,11 @@ partial def loopIO (h : IO.FS.Stream) (st : OSt) : IO Unit := do
       let entry := t.getLast?.getD 0
       let wf := traceWFB G entry t
       let weak := chainB (fun a b => linkedB G a b || ctxJumpB G a b) t
-      -- replay in the model of the code as it is, and in the model with the proposed repair
-      let r0 := replayB G { st.cfg with closureCheck := false } t
+      -- replay in the model of the code as it is (closureCheck) and, for diagnosis, in the model of
+      -- the code before repair 7ab5f0c
       let r1 := replayB G { st.cfg with closureCheck := true } t
-      IO.println s!"trace {id} wf={b01 wf} weak={b01 weak} replay={b01 (r0 || r1)} replay0={b01 r0} replay1={b01 r1}"
+      let r0 := replayB G { st.cfg with closureCheck := false } t
+      IO.println s!"trace {id} wf={b01 wf} weak={b01 weak} replay={b01 r1} replay0={b01 r0} replay1={b01 r1}"
     | none => IO.println s!"bad-record trace {id}"
     loopIO h st
   | ["run", id, entry, fuel] =>
